@@ -79,8 +79,69 @@ def conn_fields(s):
 
 
 class Call:
-    def __init__(self, method, params, more=False, oneway=False, upgrade=False):
-        self.method, self.params, self.more, self.oneway, self.upgrade = method, params, more, oneway, upgrade
+    def __init__(self, method, params, more=False, oneway=False, upgrade=False, bad=False):
+        self.method, self.params, self.more, self.oneway, self.upgrade, self.bad = method, params, more, oneway, upgrade, bad
+
+
+def utf8(b):
+    try:
+        b.decode("utf-8")
+        return True
+    except UnicodeDecodeError:
+        return False
+
+
+def gen_service(rng, n_if=None, simple_scripts=False, pool=None):
+    """-> (sections, meta) : a service with interfaces, descriptions and scripted methods"""
+    pool = pool or S.IFACE_POOL
+    n_if = rng.choice([1, 1, 2, 3]) if n_if is None else n_if
+    ifaces = rng.sample(pool, min(n_if, len(pool)))
+    vendor, product, version, url = [rng.choice([b"v", b"", b"Vendor <x>", "é".encode(), b"p\x00q"]) for _ in range(4)]
+    secs = ["svc %s %s %s %s %s" % (S.hx(vendor), S.hx(product), S.hx(version), S.hx(url), S.hx(svc_descr()))]
+    descrs = {S.SVC: svc_descr()}
+    for i in ifaces:
+        d = b"interface " + i + b"\nmethod M() -> ()"
+        descrs[i] = d
+        secs.append("iface %s %s" % (S.hx(i), S.hx(d)))
+    scripts = {}
+    for i in ifaces:
+        for m in rng.sample(S.METHODS, rng.choice([1, 2, 3])):
+            if simple_scripts:
+                steps, ret = [S.Step("r", "e", val="{77686f:S%s;}" % (i + b"." + m).hex())], False
+            else:
+                steps, ret = S.rand_script(rng)
+            scripts[i + b"." + m] = (steps, ret)
+            secs.append(S.script_text(i + b"." + m, steps, ret))
+    info = {}
+    for k, v in (("vendor", vendor), ("product", product), ("version", version), ("url", url)):
+        if v:
+            info[k] = v.decode("utf-8", "replace")
+    info["interfaces"] = [S.SVC.decode()] + [i.decode("utf-8") for i in ifaces]
+    return secs, dict(registry=ifaces, descrs=descrs, scripts=scripts, info=info,
+                      comparable=all(utf8(v) for v in (vendor, product, version, url)))
+
+
+def check_conn(meta, calls, cs, ci):
+    """Compare one connection's observable with the statement's reading. -> error text or None"""
+    out, log, ovl = conn_fields(cs)
+    if ovl != "0":
+        return "connection %d: a call was dispatched before the previous handler returned" % ci
+    if out is None:
+        return "connection %d: client did not reach end of stream" % ci
+    exp_frames, exp_log = expected_conn(meta["registry"], meta["descrs"], meta["scripts"], calls, meta["info"])
+    frames, trailing = frames_of(out)
+    if trailing:
+        return "connection %d: bytes after the last NUL" % ci
+    if log != exp_log:
+        return "connection %d: dispatch log differs from the statement's reading: got %s expected %s" % (ci, log[:6], exp_log[:6])
+    if len(frames) != len(exp_frames):
+        return "connection %d: %d replies written, %d expected" % (ci, len(frames), len(exp_frames))
+    for k, (fr, ex) in enumerate(zip(frames, exp_frames)):
+        if ex is None or (not meta["comparable"] and isinstance(ex, dict) and "vendor" in str(ex)):
+            continue
+        if frame_obj(fr) != norm(ex):
+            return "connection %d: reply %d is %r, expected %r" % (ci, k, fr[:200], ex)
+    return None
 
 
 def expected_conn(registry, descrs, scripts, calls, info):
@@ -89,6 +150,8 @@ def expected_conn(registry, descrs, scripts, calls, info):
     -> (list of expected frames as python objects or None (= not comparable), expected log entries)"""
     frames, log = [], []
     for c in calls:
+        if c.bad:
+            break           # a frame that does not decode ends the connection silently
         rt = S.route_py(registry, c.method)
 
         def emit(obj):
